@@ -360,8 +360,15 @@ class DescSim(mosaik_api_v3.Simulator):
     def __init__(self):
         super().__init__({"models": {}})
 
-    def init(self, sid, time_resolution=1.0, desc=None, type=None, api_version=None):
-        meta = {"models": {"M": dict(desc, public=True, params=[])}}
+    def init(self, sid, time_resolution=1.0, desc=None, type=None, api_version=None, child=False):
+        self.child = child
+        if child:
+            # the description under test belongs to a NON-PUBLIC model K that only occurs as the
+            # type of a child entity of the (fixed, valid) public model M
+            meta = {"models": {"M": dict(attrs=["pa"], public=True, params=[]),
+                               "K": dict(desc, public=False, params=[])}}
+        else:
+            meta = {"models": {"M": dict(desc, public=True, params=[])}}
         if type is not None:
             meta["type"] = type
         meta["api_version"] = api_version or "3.0"
@@ -369,6 +376,8 @@ class DescSim(mosaik_api_v3.Simulator):
         return meta
 
     def create(self, num, model, **kw):
+        if getattr(self, "child", False):
+            return [{"eid": "e", "type": model, "children": [{"eid": "k", "type": "K"}]}]
         return [{"eid": "e", "type": model}]
 
     def step(self, time, inputs, max_advance):
